@@ -85,12 +85,57 @@ def h_complete(ctx, cname, sk, k):
     ctx.note("program", dict(compiler=cname, skeleton=gen.describe(sk)))
 
 
+def h_complete_sym(ctx, cname, sk, k):
+    """Value-symbolic completeness (E1): the leaves named in sk['sym'] are solver variables and compile() runs under the tracer.
+    For every concrete sequence pi of original ground instances (|pi| <= k) the compiled candidates with image pi are finitely
+    many (products of the preimages under the real map_back, optionally one extra step mapped to None), so
+        exists values:  valid_P(pi)  and  no candidate is valid for P'
+    is quantifier-free; it is posed on the path solver and must be unsat."""
+    import itertools
+    import z3
+    from vf import tv
+    from vf.props.c06 import _mk
+
+    g, P, Pc, res, Ro, Rc, tab = _mk(ctx, cname, sk)
+    n_o = len(Ro.ground_actions())
+    pre = {i: [j for j, t in enumerate(tab) if t == i] for i in range(n_o)}
+    extra = [j for j, t in enumerate(tab) if t == -1]
+    for n in range(k + 1):
+        for pi in itertools.product(range(n_o), repeat=n):
+            cands = [list(c) for c in itertools.product(*[pre[i] for i in pi])]
+            for e in extra:  # one additional compiled step that maps to no original step (e.g. a final goal action), at any position
+                for c in list(itertools.product(*[pre[i] for i in pi])):
+                    for pos in range(n + 1):
+                        cands.append(list(c[:pos]) + [e] + list(c[pos:]))
+            cands = cands[:200]
+
+            def build(pi=pi, cands=cands):
+                vo = tv.valid_plan(Ro, list(pi))
+                vcs = [tv.valid_plan(Rc, c) for c in cands]
+                return z3.And([vo] + [z3.Not(v) for v in vcs]), {}
+
+            names = [f"{Ro.ground_actions()[i][0].name}({','.join(o.name for o in Ro.ground_actions()[i][1])})" for i in pi]
+            ctx.forall(build, None, f"incomplete-sym:{cname}:len{n}",
+                       f"for some value of the symbolic leaves the original plan {names} is valid but none of its {len(cands)} compiled candidates is")
+            ctx.witness("original-plan-checked")
+    ctx.witness("program")
+    ctx.note("program", dict(compiler=cname, skeleton=gen.describe(sk)))
+
+
 def shards(tier, seed):
     out = []
     k = 2 if tier == "quick" else 3
     for cname, i, sk in compfam.programs(tier):
         out.append(dict(name=f"{cname}-{i}", fn="h_complete", engine="direct", kwargs=dict(cname=cname, sk=sk, k=k),
                         budget=150 if tier == "quick" else 1500, query_timeout=60))
+    from vf.props.c06 import SYM_PROGRAMS, SYM_PROGRAMS_THOROUGH
+    for cname, i, sym in SYM_PROGRAMS if tier == "quick" else SYM_PROGRAMS + SYM_PROGRAMS_THOROUGH:
+        if cname == "conditional_effects":
+            continue  # the dropped no-effect variant (known finding, stutter-step) would fire on every value-symbolic program
+        sk = dict(compfam.FAMILY[cname][i], sym=sym)
+        sk.pop("values", None)
+        out.append(dict(name=f"sym-{cname}-{i}-{'_'.join(sym)}", fn="h_complete_sym", engine="symex", kwargs=dict(cname=cname, sk=sk, k=k),
+                        budget=150 if tier == "quick" else 1500, per_path=60))
     return out
 
 
